@@ -721,7 +721,7 @@ def run_chunk(run, chunk: int):
         # prefer configurations with sweeps / from_context / nested parameters for the expensive contexts
         def weight(ob):
             t = ob["case"].get("tags", [])
-            return -(("near_twin_history" in t) * 8 + ("multi_external_sweep" in t) * 5 + ("fc_sweep" in t) * 4 + ("sweep_case" in t) * 2 + ("nested_params" in t) + ("run_space" in t))
+            return -(("near_twin_history" in t) * 8 + ("mixed_case_required_keys" in t) * 6 + ("multi_external_sweep" in t) * 5 + ("fc_sweep" in t) * 4 + ("sweep_case" in t) * 2 + ("nested_params" in t) + ("run_space" in t))
         ranked = sorted(observed, key=weight)
         subprocess_stage(run, ranked[:N_SUBPROC_CONFIGS[run.tier]], scratch, rng)
         cli_subprocess_stage(run, ranked[:N_CLI_SUBPROC[run.tier]], scratch, rng)
